@@ -146,13 +146,13 @@ Proof. reflexivity. Qed.
 
 Lemma dec_nil2 v out :
   a85_decode [] 2 v out = Ok (rev out ++ firstn 1 (word_bytes (pad (pad (pad v))))).
-Proof. reflexivity. Qed.
+Proof. cbn [a85_decode Nat.sub]. rewrite frev_rev. reflexivity. Qed.
 Lemma dec_nil3 v out :
   a85_decode [] 3 v out = Ok (rev out ++ firstn 2 (word_bytes (pad (pad v)))).
-Proof. reflexivity. Qed.
+Proof. cbn [a85_decode Nat.sub]. rewrite frev_rev. reflexivity. Qed.
 Lemma dec_nil4 v out :
   a85_decode [] 4 v out = Ok (rev out ++ firstn 3 (word_bytes (pad v))).
-Proof. reflexivity. Qed.
+Proof. cbn [a85_decode Nat.sub]. rewrite frev_rev. reflexivity. Qed.
 
 (* ---------- accumulation of base-85 digits ---------- *)
 
@@ -234,9 +234,9 @@ Lemma a85_rt fuel : forall x out, (length x <= fuel)%nat -> wf_bytes x ->
   a85_decode (a85_encode fuel x) 0 0 out = Ok (rev out ++ x).
 Proof.
   induction fuel as [|f IH]; intros x out Hlen Hwf.
-  - destruct x; [|cbn [length] in Hlen; lia]. cbn [a85_encode a85_decode]. rewrite app_nil_r. reflexivity.
+  - destruct x; [|cbn [length] in Hlen; lia]. cbn [a85_encode a85_decode]. rewrite frev_rev, app_nil_r. reflexivity.
   - destruct x as [|a [|b [|c [|d rest]]]].
-    + rewrite enc_nil. cbn [a85_decode]. rewrite app_nil_r. reflexivity.
+    + rewrite enc_nil. cbn [a85_decode]. rewrite frev_rev, app_nil_r. reflexivity.
     + inversion Hwf as [|? ? Ha _]; subst.
       assert (Hv : a * 16777216 < 4294967296) by lia.
       rewrite enc_1.
